@@ -10,9 +10,9 @@ K_CONTEXT = [
     {'crate': 'p3-circuit', 'harness': 'c19_set_witness_contract', 'profile': 'release'},
 ]
 PROPS = {
-    'C02': {'units': ['expr', 'lower', 'opt', 'fuse', 'fvalid', 'optm', 'run19', 'coef', 'gad'], 'kani': K_ANALYSIS + [{'crate': 'p3-circuit', 'harness': 'c02_allocator_monotone'}], 'exclude': r'H_run_is_the_first_execution_of_the_op_list', 'only': {'coef': r'const_fold', 'gad': r'CircuitBuilder::select'}},
+    'C02': {'units': ['expr', 'lower', 'opt', 'fuse', 'fvalid', 'optm', 'run19', 'coef', 'gad', 'hintx'], 'kani': K_ANALYSIS + [{'crate': 'p3-circuit', 'harness': 'c02_allocator_monotone'}], 'exclude': r'H_run_is_the_first_execution_of_the_op_list', 'only': {'coef': r'const_fold', 'gad': r'CircuitBuilder::select'}},
     'C03': {'units': ['opt', 'fuse', 'fvalid', 'optm', 'cbconn', 'lower'], 'kani': K_ANALYSIS},
-    'C19': {'units': ['run19', 'pexec', 'pbits'], 'kani': K_CONTEXT, 'only': {'pexec': r'resolve_private_data|execute\[base_dispatch|execute\[state_assembly|RecomposeExecutor::execute|PoseidonPermExecutor::(new|clone)'}},
+    'C19': {'units': ['run19', 'pexec', 'pbits', 'hintx'], 'kani': K_CONTEXT, 'only': {'pexec': r'resolve_private_data|execute\[base_dispatch|execute\[state_assembly|RecomposeExecutor::execute|PoseidonPermExecutor::(new|clone)'}},
     'C20': {'units': ['gad', 'quot', 'fri', 'periodic', 'fquery', 'pcswrap'], 'kani': [], 'only': {'fri': r'evaluate_polynomial|circuit_exp_by_constant|lemma_', 'fquery': r'final_query_point'}},
     'C07': {'units': ['fri', 'shape', 'fold', 'fchain', 'fquery', 'evpts', 'openin', 'onehot', 'c15guard'], 'kani': [], 'only': {'shape': r'verify_fri_circuit', 'c15guard': r'top_height_guard|get_challenges_circuit|query_index_width'}, 'exclude': r'possible (bit shift|arithmetic)'},
     'C05': {'units': ['chal', 'coef', 'bind', 'pbuild'], 'kani': [], 'exclude': r'canonical_width', 'only': {'coef': r'select_path|recompose_base_coeffs_to_ext_impl\[dispatch\]\.(ensures\[(frame|output)|call\[|invariant\[)|recompose_base_coeffs_to_ext_impl\[const_fold', 'bind': r'add_poseidon[12]_perm_for_challenger(_base)?\.ensures\[(frame|shape|succeeds_when_enabled|emits_one_row|returns_the_rows)|duplexing_base(_p1)?\.ensures\[(emits_one_row|adopts_the_rows|rate_pinned_capacity_chained)|duplexing_ext(_p1)?\.(ensures\[one_row_over|invariant\[(packed|adopted|copying))'}},
@@ -22,7 +22,7 @@ PROPS = {
     'C18': {'units': ['dsu', 'order', 'pphase', 'fvalid', 'iterord', 'hashord'], 'kani': []},
     'C14': {'units': ['pack', 'pack2', 'pack3', 'pubin', 'packres'], 'kani': [], 'exclude': r'H_each_instances_values_have_the_length'},
     'C12': {'units': ['bits', 'chal', 'coef', 'rcair', 'prep', 'cbconn', 'lower'], 'kani': [], 'only': {'chal': r'canonical_width', 'prep': r'operand_[ac]_takes_part_in_the_witness_bus', 'lower': r'emit_bool_check|emit_mul_add'}},
-    'C15': {'units': ['shape', 'bshape', 'openin', 'hmerge', 'bprep', 'c15guard', 'pack', 'pubin'], 'kani': [], 'only': {'openin': r'per_matrix_shape_and_grouping|compute_single_reduced_opening|height_group', 'pack': r'OpenedValuesTargets::new', 'pubin': r'H_each_instances_values_have_the_length'}, 'exclude': r'H_a_proof_without_commit_phases_is_not_refused'},
+    'C15': {'units': ['shape', 'bshape', 'openin', 'hmerge', 'bprep', 'c15guard', 'pack', 'pubin', 'vbatch'], 'kani': [], 'only': {'vbatch': r'verify_batch_circuit\.(safety\[|assert\[a_debug_assertion)', 'openin': r'per_matrix_shape_and_grouping|compute_single_reduced_opening|height_group', 'pack': r'OpenedValuesTargets::new', 'pubin': r'H_each_instances_values_have_the_length'}, 'exclude': r'H_a_proof_without_commit_phases_is_not_refused'},
     'C13': {'units': ['sym', 'symx', 'airlay'], 'kani': []},
     'C09': {'units': ['prep', 'mult', 'pread', 'pphase', 'ptrace', 'rcair'], 'kani': [], 'exclude': r'H_the_preprocessed_row_of_a_constant_commits_its_value|H_a_built_circuit_is_never_refused|H_a_hint_output_read_only_by_non_primitive_rows'},
     'C08': {'units': ['mmcs', 'hash', 'hashb', 'mbind', 'vbatch', 'vbatchx', 'a4sched', 'a4path', 'pexec'], 'kani': [], 'only': {'pexec': r'execute\[state_assembly'}},
